@@ -172,6 +172,17 @@ def make_resolver(schema, rng, p_raise, log, want_async):
                 return fail()
             raise e
         v = gen(info.return_type, path, 0)
+        if not want_async and isinstance(v, list) and rng.random() < 0.04:
+            # a resolver handing an async iterable to the synchronous entry point: it cannot be consumed there, which
+            # must surface as an error in a well-formed response (never as a coroutine object inside data)
+            items, boom = v, (exc_pool(rng, path) if rng.random() < 0.5 else None)
+
+            async def agen():
+                for x in items:
+                    yield x
+                if boom is not None:
+                    raise boom
+            return agen()
         if want_async and rng.random() < 0.3:
             async def ok():
                 return v
@@ -249,6 +260,36 @@ def check_result(ctx, res, log, case):
         fmt = res.formatted
     except Exception as e:  # noqa: BLE001
         return bad(f"formatted-crash:{type(e).__name__}", {"exception": repr(e)[:200]})
+    def json_problem(v, depth=0):
+        if v is None or isinstance(v, (bool, str)):
+            return None
+        if isinstance(v, int):
+            return None
+        if isinstance(v, float):
+            return None      # finiteness is C16's clause; a custom scalar may pass anything through
+        if depth > 200:
+            return None
+        if isinstance(v, dict):
+            for k, x in v.items():
+                if not isinstance(k, str):
+                    return f'non-string key {k!r}'
+                p = json_problem(x, depth + 1)
+                if p:
+                    return p
+            return None
+        if isinstance(v, (list, tuple)):
+            for x in v:
+                p = json_problem(x, depth + 1)
+                if p:
+                    return p
+            return None
+        import inspect
+        if inspect.isawaitable(v) or inspect.isasyncgen(v) or inspect.isgenerator(v) or hasattr(v, '__aiter__') or hasattr(v, '__anext__'):
+            return f'{type(v).__name__} object in data'      # execution machinery leaked into the response
+        return None     # a custom scalar passes the resolver's value through
+    jp = json_problem(res.data)
+    if jp:
+        return bad("response-format:data-not-json", {"problem": jp})
     for e in fmt.get("errors", []):
         if not isinstance(e.get("message"), str):
             return bad("response-format:message", {"error": repr(e)[:200]})
